@@ -4,6 +4,8 @@ import (
 	"fmt"
 	"go/ast"
 	"go/constant"
+	"go/token"
+	"go/types"
 	"math/big"
 	"sort"
 	"strings"
@@ -23,7 +25,7 @@ var c18Ops = map[byte][]string{
 }
 
 func c18(c *core.Check) {
-	c.Explain = "Thin: structural necessary conditions of SVG path interpretation and reference handling, decided on the syntax tree and SSA form: (R1) in pathParser.addSeg every command letter has a case, each case checks the SVG argument count of its command (M2 L2 H1 V1 C6 S4 Q4 T2 A7, Z none), every lower-case letter switches to relative coordinates before sharing its upper-case sibling's code, each command emits the path operations SVG assigns to it, Z moves the current point back to the sub-path start, and the smooth commands reflect the control point only after a command of their own family; (R2) <use> (by id and by URL) and href inheritance between definitions are cycle-guarded. The geometry itself (arc conversion, reflections, quadratic elevation, viewBox arithmetic, basic shapes) is not decided; fixed-position reads of the SVG attribute parsers are decided under C07."
+	c.Explain = "Thin: structural necessary conditions of SVG path interpretation and reference handling, decided on the syntax tree and SSA form: (R1) in pathParser.addSeg every command letter has a case, each case checks the SVG argument count of its command (M2 L2 H1 V1 C6 S4 Q4 T2 A7, Z none), every lower-case letter switches to relative coordinates before sharing its upper-case sibling's code, each command emits the path operations SVG assigns to it, Z moves the current point back to the sub-path start, and the smooth commands reflect the control point only after a command of their own family; (R2) <use> (by id and by URL) and href inheritance between definitions are cycle-guarded. The geometry itself (arc conversion, reflections, quadratic elevation, viewBox arithmetic, basic shapes) is not decided; fixed-position reads of the SVG attribute parsers are decided under C07. Also decided by symbolic folding: (R4) reflection, quadratic elevation and the ellipse parameterisation in closed form; (R5) the arc centre and radii correction of SVG F.6.5/F.6.6; (R6) rect and ellipse outlines against a recording canvas."
 	p := c.Prog
 	r1 := c.Rule("R1", "pathParser.addSeg: argument count, relative/absolute pairing and emitted operations per path command are those of SVG 1.1 §8.3; Z returns the current point to the sub-path start; smooth commands reflect the previous control point only after a command of their own family", 40)
 	fn := p.Lookup("svg.(*pathParser).addSeg")
@@ -324,6 +326,7 @@ func c18(c *core.Check) {
 	c18Geometry(c)
 	c18ArcCenter(c)
 	c18Shapes(c)
+	c18Groups(c)
 	r3 := c.Rule("R3", "no call passes two same-typed arguments under each other's parameter names (swapped arguments): every pair of arguments named after the callee's parameters is aligned with them", 60)
 	argNameRule(c, r3, "svg", nil, 90)
 }
@@ -447,5 +450,68 @@ func c18Geometry(c *core.Check) {
 			}
 		}
 		r.Cond(len(diffs) == 0, "svg.quadraticToCubic", p.Pos(fn.Pos()), "CP1 = P0 + 2/3 (P1 − P0), CP2 = P2 + 2/3 (P1 − P2), P2", strings.Join(diffs, "; "))
+	}
+}
+
+// c18Groups: a helper that is handed one argument group of a repeated command reads that group only.
+func c18Groups(c *core.Check) {
+	p := c.Prog
+	r := c.Rule("R7", "implicit repetition: a method of pathParser that receives the argument group of the current repetition as a parameter reads the coordinates through that parameter only — never through the parser's whole argument list, which would draw every repetition with the first group's values; and addSeg hands addArcFromA the list re-sliced at the loop index", 3)
+	n := 0
+	for _, fn := range p.FuncsOfPkg("svg") {
+		if fn.Signature.Recv() == nil || len(fn.Params) < 2 || !strings.Contains(fn.Params[0].Type().String(), "pathParser") {
+			continue
+		}
+		var group *ssa.Parameter
+		for _, par := range fn.Params[1:] {
+			if sl, ok := par.Type().Underlying().(*types.Slice); ok {
+				if b, ok := sl.Elem().Underlying().(*types.Basic); ok && b.Info()&types.IsFloat != 0 {
+					group = par
+				}
+			}
+		}
+		if group == nil {
+			continue
+		}
+		n++
+		var bad []string
+		core.Instrs(fn, func(in ssa.Instruction) {
+			if fa, ok := in.(*ssa.FieldAddr); ok && fa.X == ssa.Value(fn.Params[0]) && core.FieldName(fa) == "points" {
+				// a read of the whole list
+				if refs := fa.Referrers(); refs != nil {
+					for _, ref := range *refs {
+						if u, ok := ref.(*ssa.UnOp); ok && u.Op == token.MUL {
+							bad = append(bad, p.Pos(u.Pos()))
+						}
+					}
+				}
+			}
+		})
+		r.Cond(len(bad) == 0, core.FuncName(fn)+" | reads its group parameter "+group.Name(), p.Pos(fn.Pos()), "no read of the parser's whole argument list", "reads the parser's whole argument list at "+strings.Join(bad, ", ")+" although it is handed the current group as "+group.Name())
+	}
+	if n == 0 {
+		r.Anchor("methods of svg.pathParser with a coordinate group parameter")
+	}
+	// the caller re-slices at the loop index
+	if addSeg := p.Method("svg", "pathParser", "addSeg"); addSeg == nil {
+		r.Anchor("svg.(*pathParser).addSeg")
+	} else {
+		found := false
+		core.Instrs(addSeg, func(in ssa.Instruction) {
+			call, ok := in.(*ssa.Call)
+			if !ok || call.Call.StaticCallee() == nil || call.Call.StaticCallee().Name() != "addArcFromA" {
+				return
+			}
+			found = true
+			sl, ok := call.Call.Args[1].(*ssa.Slice)
+			okIdx := false
+			if ok && sl.Low != nil {
+				_, okIdx = sl.Low.(*ssa.Phi)
+			}
+			r.Cond(okIdx, "svg.(*pathParser).addSeg | addArcFromA(c.points[i:])", p.Pos(call.Pos()), "the list re-sliced at the loop index", "addArcFromA is not handed the argument list re-sliced at the index of the repetition loop")
+		})
+		if !found {
+			r.Anchor("call of addArcFromA in addSeg")
+		}
 	}
 }
